@@ -521,8 +521,14 @@ async fn run_async<P: TAsyncInputProtocol>(p: &mut P, types: &[u8], skip: bool) 
 /// Decode (or skip) values of the given wire types from a scripted stream.
 /// `eof_at`: the stream ends after that many bytes (None = all of `input`).
 pub fn decode_async(proto: Proto, input: &[u8], types: &[u8], sched: Vec<Sched>, default_chunk: usize, eof_at: Option<usize>, skip: bool) -> AsyncOut {
+    decode_async_b(proto, input, types, sched, default_chunk, eof_at, skip, None)
+}
+
+#[allow(clippy::too_many_arguments)]
+pub fn decode_async_b(proto: Proto, input: &[u8], types: &[u8], sched: Vec<Sched>, default_chunk: usize, eof_at: Option<usize>, skip: bool, bounds: Option<Vec<usize>>) -> AsyncOut {
     let mut out = AsyncOut::default();
     let mut rd = ScriptedReader::new(input.to_vec(), sched, default_chunk);
+    rd.bounds = bounds;
     if let Some(e) = eof_at {
         rd.eof_at = e.min(input.len());
     }
